@@ -14,7 +14,7 @@ RULE = ('language space: all strings of <=L tokens over a 28-token alphabet (BFS
         'deferred validation: 8 slots x 14 unresolvable values x 6 calls; non-trivial = contains a bracket or separator '
         'token (language), any mutant (mutation)')
 ASSUMPTIONS = ['"an error" = any ValueError subclass (all peptacular errors derive from ValueError)',
-               'is_sequence_valid is required to agree with "parses to a single-chain annotation" and never to raise',
+               'is_sequence_valid must never raise, must be False for rejected text and True for text that parses to a single-chain annotation',
                'unresolvable corpus excludes values for which the library documents a mass of 0 (bare #tag, empty Formula:)']
 
 TOKENS = ['P', 'K', '[', ']', '(', ')', '{', '}', '<', '>', '?', '-', '+', '/', '^', '@', '#', '|', ':', ',', '.',
@@ -111,7 +111,8 @@ def _one(p, ctx, s):
     ctx.evals += 1
     if st3 != 'ok':
         ctx.fail('is_sequence_valid-raises', 'bool', v, text=s, subcase=sub)
-    elif bool(v) != single:
+    elif (st == 'err' and v) or (single and not v):
+        # rejected text must be invalid, a single-chain annotation must be valid; multi-chain text is not prescribed
         ctx.fail('is_sequence_valid-disagrees', single, v, text=s, subcase=sub)
     return tag
 
